@@ -71,7 +71,10 @@ func (l *FaultLoader) Load(name string) (stick.Template, error) {
 				return nil, err
 			}
 			src, _ := ioutil.ReadAll(t.Contents())
-			return &failingTemplate{name: name, src: src[:len(src)/2]}, nil
+			// the error a read fails with is the reader's business: an injected one, and the ones the standard
+			// library has for streams that break off (a failed read is a failed load whatever the error is called)
+			errs := []error{ErrInjected, io.ErrUnexpectedEOF, io.ErrClosedPipe, io.ErrNoProgress, os.ErrDeadlineExceeded, io.ErrShortBuffer, os.ErrClosed}
+			return &failingTemplate{name: name, src: src[:len(src)/2], err: errs[(l.FailAt+len(name))%len(errs)]}, nil
 		}
 		if l.BadSource {
 			// a different kind of syntax error from load to load: each is refused by another part of the parser
@@ -93,16 +96,21 @@ var BrokenSources = []string{
 type failingTemplate struct {
 	name string
 	src  []byte
+	err  error
 }
 
 func (t *failingTemplate) Name() string { return t.name }
 func (t *failingTemplate) Contents() io.Reader {
-	return io.MultiReader(bytes.NewReader(t.src), failingReader{})
+	err := t.err
+	if err == nil {
+		err = ErrInjected
+	}
+	return io.MultiReader(bytes.NewReader(t.src), failingReader{err})
 }
 
-type failingReader struct{}
+type failingReader struct{ err error }
 
-func (failingReader) Read([]byte) (int, error) { return 0, ErrInjected }
+func (f failingReader) Read([]byte) (int, error) { return 0, f.err }
 
 // ShapedLoader is a memory loader whose templates hand out their source through readers of different, all
 // legitimate, shapes: everything at once, a byte at a time, in halves, the last bytes together with io.EOF, and readers that have other
